@@ -279,6 +279,64 @@ def run_config(cfg, res):
                  '%s, line of %d bytes' % (desc, L + 5), o['got'])
           break
       res.case(('overlong', L), True)
+  # several clients of the listener at the same time, each cut wherever the network likes (also inside a line / a frame
+  # header); a client may go away in the middle of a line before the next one connects: every connection's complete,
+  # well-formed datapoints arrive, each once, in that connection's order, and nothing of one client shows up in another's
+  if cfg['proto'] in ('line', 'pickle') and cfg['shard'] in (0, 1, 2):
+    import pickle
+    cls = P.MetricLineReceiver if cfg['proto'] == 'line' else P.MetricPickleReceiver
+    for case in range(40 if cfg['tier'] == 'quick' else 400):
+      nconn = r.choice([2, 2, 3])
+      plans, wants, streams = [], [], []
+      dying = r.random() < 0.4
+      for k in range(nconn):
+        pts = [('c%d.%s' % (k, gen_name(r).replace(';', '_')), str(1600000000 + r.randrange(10 ** 6)), r.choice(['1', '2.5', '-7', '1e3'])) for _ in range(r.randint(2, 6))]
+        if cfg['proto'] == 'line':
+          st_ = b''.join(codec.encode_line(n, v, t, None, r.choice([b'\n', b'\r\n'])) for n, t, v in pts)
+        else:
+          st_ = b''.join(codec.encode_pickle_frame([(n, (float(t), float(v))) for n, t, v in pts[i:i + 2]]) for i in range(0, len(pts), 2))
+        cuts = sorted(set(r.randrange(1, len(st_)) for _ in range(r.randint(1, 5))))
+        plans.append(proto.cut(st_, cuts))
+        streams.append(st_)
+        wants.append([(n, (float(t), float(v))) for n, t, v in pts])
+      close_after = {}
+      if dying:
+        # connection 0 is read up to a cut in the middle of its stream and then goes away; the others start afterwards
+        close_after[0] = r.randint(1, max(1, len(plans[0]) - 1))
+        order = [0] * close_after[0] + [r.randrange(1, nconn) for _ in range(40)]
+        got0 = b''.join(plans[0][:close_after[0]])
+        if cfg['proto'] == 'line':
+          keep = got0.count(b'\n')
+        else:
+          keep, off = 0, 0
+          while off + 4 <= len(got0):
+            ln = int.from_bytes(got0[off:off + 4], 'big')
+            if off + 4 + ln > len(got0):
+              break
+            keep += len(pickle.loads(got0[off + 4:off + 4 + ln]))
+            off += 4 + ln
+        wants[0] = wants[0][:keep]
+      else:
+        order = [r.randrange(nconn) for _ in range(60)] + list(range(nconn)) * 8
+      o = proto.tcp_sessions_interleaved(cls, plans, order, rec, close_after)
+      res.count('interleaved_connection_sessions')
+      res.count('segmentations_executed')
+      why = None
+      if o['exc'] is not None:
+        why = 'exception %r' % o['exc']
+      else:
+        for k in range(nconn):
+          mine = [g for g in o['got'] if g[0].startswith('c%d.' % k)]
+          why = proto.same_points(mine, wants[k])
+          if why:
+            why = 'connection %d: %s' % (k, why)
+            break
+        if not why and len(o['got']) != sum(len(w) for w in wants):
+          why = '%d datapoints received, %d sent' % (len(o['got']), sum(len(w) for w in wants))
+      if why:
+        report('mismatch/interleaved-connections', why, b' || '.join(s_[:60] for s_ in streams), wants[0][:2],
+               '%d connections interleaved%s' % (nconn, ', the first one going away mid-stream' if dying else ''), o['got'][:6])
+      res.case(('multi', case), True)
   # datagrams of exactly the sizes at which buffers end (the read buffer of twisted's UDP port is 8192 bytes, a datagram of
   # that size arrives whole), with and without a line terminator after the last line, and the same datapoints batched otherwise
   if cfg['proto'] == 'udp' and cfg['shard'] in (0, 1):
